@@ -17,7 +17,7 @@ def isOptName (c : Ctx) (s : String) : Bool :=
   | some (sh, nm) => c.contains (nm, sh)
   | none => false
 
-/-- the token starts with a dash -/
+/-- the token starts with a dash (= the public `fcppt::options::is_option`, src/options/is_option.cpp) -/
 def flagLike (s : String) : Bool := s.toList.head? = some '-'
 
 /-- `skipped c l`: `l` reads, left to right, as flags and *option name, value* pairs only, and does not end in an
@@ -34,7 +34,7 @@ def skipped (c : Ctx) : List String → Bool
 def OP.consuming : OP → Bool
   | .arg .. => true
   | .flag .. => false
-  | .opt _ _ _ dflt _ => dflt.isNone
+  | .opt _ _ _ dflt _ _ => dflt.isNone
   | .unit .. => false
   | .unitSwitch .. => true
   | .optional _ | .many _ => false
@@ -50,9 +50,9 @@ def OP.wfMany : OP → Bool
   | .many p => p.consuming && p.wfMany
   | .prod a b | .sum _ a b => a.wfMany && b.wfMany
   | .commands c subs => c.wfMany && wfManySubs subs
-def wfManySubs : List (String × String × OP) → Bool
+def wfManySubs : Subs → Bool
   | [] => true
-  | (_, _, p) :: r => p.wfMany && wfManySubs r
+  | (_, _, _, p) :: r => p.wfMany && wfManySubs r
 end
 
 mutual
@@ -60,15 +60,15 @@ mutual
 distinct sub-command names — everywhere in the tree -/
 def OP.WellFormed : OP → Prop
   | .arg .. | .unit .. => True
-  | .flag _ sh lg act inact => sh ≠ some lg ∧ act.beqBase inact = false
-  | .opt _ sh lg _ _ | .unitSwitch _ sh lg => sh ≠ some lg
+  | .flag _ sh lg act inact _ => sh ≠ some lg ∧ act.beqBase inact = false
+  | .opt _ sh lg _ _ _ | .unitSwitch _ sh lg => sh ≠ some lg
   | .optional p | .many p => p.WellFormed
   | .prod a b => a.WellFormed ∧ b.WellFormed ∧ ∀ n ∈ a.allNames, n ∉ b.allNames
   | .sum _ a b => a.WellFormed ∧ b.WellFormed
   | .commands c subs => c.WellFormed ∧ WellFormedSubs subs ∧ (subs.map Prod.fst).Nodup
-def WellFormedSubs : List (String × String × OP) → Prop
+def WellFormedSubs : Subs → Prop
   | [] => True
-  | (_, _, p) :: r => p.WellFormed ∧ WellFormedSubs r
+  | (_, _, _, p) :: r => p.WellFormed ∧ WellFormedSubs r
 end
 
 end Fcppt.C03
